@@ -250,6 +250,12 @@ func famDecode(rng *gen.Rng, nHot, nChurn int) (hot, churn []hammerOp) {
 			}
 			break
 		}
+		if tag == "hot" && !bytes.Equal(want, hammerErr) && i%2 == 0 {
+			// a long-lived object decoded before the churn
+			if kept, err := secp256k1.NewPointFromBytes(enc); err == nil {
+				return hammerOp{fmt.Sprintf("kept point object (%s#%d)", tag, i), want, func() []byte { return kept.UncompressedBytes() }}
+			}
+		}
 		return hammerOp{fmt.Sprintf("NewPointFromBytes(%s#%d)", tag, i), want, func() []byte {
 			p, err := secp256k1.NewPointFromBytes(enc)
 			if err != nil {
@@ -389,6 +395,14 @@ func famSchnorrVerify(rng *gen.Rng, nHot, nChurn int) (hot, churn []hammerOp) {
 		bad[40] ^= 4
 		lift := oracle.EncodeUncompressed(oracle.BIP340LiftX(oracle.FromBytes(pk)))
 		want := append([]byte{1, 0}, lift...)
+		// the same key as a LONG-LIVED object, imported now - before the churn of thousands of other
+		// imports - and used all the way through and afterwards
+		if kept, err := bitcoin.NewSchnorrPublicKey(pk); err == nil {
+			hot = append(hot, hammerOp{fmt.Sprintf("kept key object pk%d: Verify, Point, Bytes", i), append(append([]byte{1, 0}, lift...), pk...), func() []byte {
+				out := []byte{byte(boolU64(kept.Verify(msg, sig))), byte(boolU64(kept.Verify(msg, bad)))}
+				return append(append(out, kept.Point().UncompressedBytes()...), kept.Bytes()...)
+			}})
+		}
 		hot = append(hot, hammerOp{fmt.Sprintf("NewSchnorrPublicKey(pk%d).Verify", i), want, func() []byte {
 			k, err := bitcoin.NewSchnorrPublicKey(pk)
 			if err != nil {
@@ -439,6 +453,11 @@ func famParse(rng *gen.Rng, n int) []hammerOp {
 		}
 		spki := oracle.SPKIWrite(oracle.EncodeUncompressed(m))
 		want := append(append([]byte{}, spki...), oracle.EncodeCompressed(m)...)
+		if kept, err := secec.ParseASN1PublicKey(spki); err == nil && i%2 == 0 {
+			ops = append(ops, hammerOp{fmt.Sprintf("kept key object (key%d): ASN1Bytes, CompressedBytes, Point", i), append(append([]byte{}, want...), oracle.EncodeUncompressed(m)...), func() []byte {
+				return append(append(kept.ASN1Bytes(), kept.CompressedBytes()...), kept.Point().UncompressedBytes()...)
+			}})
+		}
 		ops = append(ops, hammerOp{fmt.Sprintf("ParseASN1PublicKey(key%d).ASN1Bytes", i), want, func() []byte {
 			k, err := secec.ParseASN1PublicKey(spki)
 			if err != nil {
@@ -515,7 +534,10 @@ var hammerBuilders = map[string]func(rng *gen.Rng, w *mon.W) (hot, churn []hamme
 		_, c := famDecode(rng, 0, 1200)
 		return famRecoverVerify(rng, 8), c
 	},
-	"C12": func(rng *gen.Rng, w *mon.W) (hot, churn []hammerOp) { return famParse(rng, 12), nil },
+	"C12": func(rng *gen.Rng, w *mon.W) (hot, churn []hammerOp) {
+		_, c := famDecode(rng, 0, 400)
+		return famParse(rng, 12), append(c, famParseChurn(rng, 2200)...)
+	},
 	"C13": func(rng *gen.Rng, w *mon.W) (hot, churn []hammerOp) { return famSchnorrVerify(rng, 8, 2600) },
 	"C14": func(rng *gen.Rng, w *mon.W) (hot, churn []hammerOp) { return famSign(rng, 8, true), nil },
 	"C15": func(rng *gen.Rng, w *mon.W) (hot, churn []hammerOp) { return famH2C(rng, 14), nil },
@@ -529,4 +551,25 @@ var hammerBuilders = map[string]func(rng *gen.Rng, w *mon.W) (hot, churn []hamme
 	"C19": func(rng *gen.Rng, w *mon.W) (hot, churn []hammerOp) {
 		return append(famBaseMult(rng, 8), famScalarMult(rng, 4)...), nil
 	},
+}
+
+// famParseChurn: distinct SubjectPublicKeyInfo inputs, each parsed once.
+func famParseChurn(rng *gen.Rng, n int) []hammerOp {
+	var ops []hammerOp
+	for i := 0; i < n; i++ {
+		var m *oracle.Pt
+		for m == nil {
+			m = oracle.LiftX(rng.Below(bigP), uint(i&1))
+		}
+		spki := oracle.SPKIWrite(oracle.EncodeUncompressed(m))
+		want := oracle.EncodeCompressed(m)
+		ops = append(ops, hammerOp{fmt.Sprintf("ParseASN1PublicKey(churn#%d)", i), want, func() []byte {
+			k, err := secec.ParseASN1PublicKey(spki)
+			if err != nil {
+				return hammerErr
+			}
+			return k.CompressedBytes()
+		}})
+	}
+	return ops
 }
